@@ -1,0 +1,14 @@
+//go:build verif
+// +build verif
+
+package chained_bft
+
+// Export shim for the verification harness (/verif, property C15, multi-replica phase BftNet).
+// Compiled only with `-tags verif`; adds no behaviour, only read access to the two counters of
+// DefaultSaftyRules that decide whether a replica votes.
+
+// VerifLastVoteRound returns lastVoteRound (the highest round the replica voted in).
+func (s *DefaultSaftyRules) VerifLastVoteRound() int64 { return s.lastVoteRound }
+
+// VerifPreferredRound returns preferredRound (the round the replica is locked on).
+func (s *DefaultSaftyRules) VerifPreferredRound() int64 { return s.preferredRound }
